@@ -50,6 +50,7 @@ func (vc *FuncVC) execCall(st *State, c *ssa.CallCommon, fv Value, args []Value,
 			for i := 0; i < sig.Params().Len(); i++ {
 				ptypes = append(ptypes, sig.Params().At(i).Type())
 			}
+			vc.curSelf = &f
 			vc.contractCall(st, sp, nil, sig, args, ptypes, pos, k)
 			return
 		}
@@ -196,6 +197,9 @@ func (vc *FuncVC) freshResults(st *State, sig *types.Signature) Value {
 // bindCallee builds the environment for evaluating clauses of contract sp at a call site.
 func (vc *FuncVC) bindCallee(st, old *State, sp *FuncSpec, fn *ssa.Function, sig *types.Signature, args []Value, ptypes []types.Type, res []Value) *Env {
 	env := &Env{vc: vc, st: st, old: old, vars: map[string]TV{}}
+	if sp.Kind == "functype" && vc.curSelf != nil {
+		env.vars["self"] = TV{T: *vc.curSelf}
+	}
 	if sp.Pkg != "" {
 		env.pkg = vc.w.typPkgs[sp.Pkg]
 	}
@@ -244,6 +248,7 @@ func (vc *FuncVC) bindCallee(st, old *State, sp *FuncSpec, fn *ssa.Function, sig
 			}()
 			if cl, ok := args[i].(*ClosureVal); ok {
 				vc.bindClosureVars(env, st, cl)
+				env.vars[name] = TV{T: vc.closureRef(st, cl), Go: t}
 				return
 			}
 			if i == 0 && sp.Kind == "interface" && t != nil {
@@ -539,6 +544,11 @@ func (vc *FuncVC) execBuiltin(st *State, f *ssa.Builtin, c *ssa.CallCommon, args
 		}
 		k(st, nilIface)
 	case "print", "println":
+		k(st, nil)
+	case "close":
+		// closing a channel: channels are outside the model (only reached in functions whose channel operations are
+		// summarised by trusted contracts)
+		vc.warn("close(channel) at %s is not modelled", vc.pos(pos))
 		k(st, nil)
 	case "min", "max":
 		a := args[0].(Term)
